@@ -19,7 +19,6 @@ package sticky
 
 import (
 	"bytes"
-	"context"
 	"encoding/json"
 	"fmt"
 	"math/rand"
@@ -37,9 +36,7 @@ import (
 	"time"
 
 	"github.com/apache/arrow-go/v18/arrow"
-	"github.com/apache/arrow-go/v18/arrow/array"
 	"github.com/apache/arrow-go/v18/arrow/ipc"
-	"github.com/apache/arrow-go/v18/arrow/memory"
 
 	"github.com/Query-farm/vgi-rpc-go/vgirpc"
 
@@ -136,9 +133,11 @@ type event struct {
 }
 
 type thr struct {
-	id   int
-	w    *world
-	kind string // plain | resume | delete | reaper | op
+	id    int
+	w     *world
+	kind  string // plain | resume | delete | reaper | op | prep
+	route string // unary | pinit | pcont | xturn
+	free  bool   // a preparatory request outside the schedule: never gated, never observed
 
 	gid    atomic.Int64
 	arrive chan event
@@ -165,14 +164,17 @@ type thr struct {
 	states    []*sessState
 	openErrs  []string
 	closeHits []bool
+	tickSaws  []int        // ctx.Session() seen by each Produce / Exchange call
 	opened    []*sessState // states whose OpenSession returned nil
 	sids      []string     // CallContext.SessionID() after each successful OpenSession
 	resp      *httptest.ResponseRecorder
+	cursor    []byte
+	callTok   []byte
 	ret       int
 	last      event
 
 	// cursor of the scheduler into the journal (ungated mode)
-	openCur, closeCur int
+	openCur, closeCur, tickCur int
 }
 
 type world struct {
@@ -195,6 +197,7 @@ type world struct {
 	allSt   []*sessState
 	stMu    sync.Mutex
 	leaked  bool
+	prepErr error
 	notes   []string
 }
 
@@ -227,10 +230,10 @@ func errClass(err error) string {
 }
 
 // the scripted handler: user code of every request
-func (w *world) handler(_ context.Context, cc *vgirpc.CallContext, p callParams) (int64, error) {
-	v, ok := w.reqs.Load(p.Req)
+func (w *world) userCode(cc *vgirpc.CallContext, reqID int64) error {
+	v, ok := w.reqs.Load(reqID)
 	if !ok {
-		return 0, fmt.Errorf("driver: unknown request %d", p.Req)
+		return fmt.Errorf("driver: unknown request %d", reqID)
 	}
 	th := v.(*thr)
 	th.saw = 0
@@ -256,7 +259,7 @@ func (w *world) handler(_ context.Context, cc *vgirpc.CallContext, p callParams)
 			th.openErrs = append(th.openErrs, errClass(err))
 			if err != nil {
 				th.gate("h")
-				return 0, err
+				return err
 			}
 			th.opened = append(th.opened, st)
 			th.sids = append(th.sids, cc.SessionID())
@@ -269,12 +272,38 @@ func (w *world) handler(_ context.Context, cc *vgirpc.CallContext, p callParams)
 			panic("scripted panic")
 		}
 	}
-	return 1, nil
+	return nil
+}
+
+// onTick is user code of a Produce / Exchange call: it reads the session and parks.
+func (w *world) onTick(cc *vgirpc.CallContext) {
+	v, ok := w.byGID.Load(curGID())
+	if !ok {
+		return
+	}
+	th := v.(*thr)
+	if th.free {
+		return
+	}
+	saw := 0
+	if st, ok := cc.Session().(*sessState); ok && st != nil {
+		saw = int(st.slot.Load())
+		if saw == 0 {
+			saw = -1
+		}
+	}
+	th.tickSaws = append(th.tickSaws, saw)
+	if saw > 0 && th.saw == 0 {
+		th.saw = saw
+	}
+	th.inHandler.Store(true)
+	defer th.inHandler.Store(false)
+	th.gate("p")
 }
 
 // gate parks the calling goroutine until the scheduler releases it.
 func (th *thr) gate(point string, args ...any) {
-	if !th.w.gated.Load() {
+	if th.free || !th.w.gated.Load() {
 		return
 	}
 	th.arrive <- event{point: point, args: args}
@@ -294,7 +323,7 @@ var gatePoints = map[string]bool{
 }
 
 func (w *world) hook(point string, args ...any) {
-	if !gatePoints[point] {
+	if !gatePoints[point] && point != "sticky.resume.locked" {
 		return
 	}
 	v, ok := w.byGID.Load(curGID())
@@ -302,6 +331,14 @@ func (w *world) hook(point string, args ...any) {
 		return
 	}
 	th := v.(*thr)
+	if point == "sticky.resume.locked" && (th.route == "pcont" || th.route == "xturn") {
+		// no init handler follows on these routes: park here so that taking the lock is a step
+		th.gate(point, args...)
+		return
+	}
+	if !gatePoints[point] {
+		return
+	}
 	if (point == "sticky.reap.removed" || point == "sticky.shutdown.removed") && len(args) > 1 {
 		if n, _ := args[1].(int); n == 0 {
 			return
@@ -363,11 +400,12 @@ func (w *world) build(args map[string]any) error {
 			id = name + "-" + strings.Repeat("x", 256+w.rng.Intn(40))
 		}
 		srv.SetServerID(id)
-		vgirpc.Unary(srv, "call", w.handler)
+		registerService(srv, w.userCode)
 		h, err := vgirpc.NewHttpServerWithKey(srv, w.key)
 		if err != nil {
 			return err
 		}
+		h.SetProducerBatchLimit(1)
 		h.SetAuthenticate(func(r *http.Request) (*vgirpc.AuthContext, error) {
 			id, ok := w.idents[r.Header.Get("X-Who")]
 			if !ok || id.auth == nil {
@@ -383,23 +421,6 @@ func (w *world) build(args map[string]any) error {
 	w.tokens = map[int]string{}
 	w.threads = map[int]*thr{}
 	return nil
-}
-
-func requestBody(req int64) []byte {
-	mem := memory.NewGoAllocator()
-	b := array.NewInt64Builder(mem)
-	b.Append(req)
-	arr := b.NewArray()
-	b.Release()
-	defer arr.Release()
-	schema := arrow.NewSchema([]arrow.Field{{Name: "req", Type: arrow.PrimitiveTypes.Int64}}, nil)
-	batch := array.NewRecordBatch(schema, []arrow.Array{arr}, 1)
-	defer batch.Release()
-	var buf bytes.Buffer
-	if err := vgirpc.WriteRequest(&buf, "call", batch, ""); err != nil {
-		panic(err)
-	}
-	return buf.Bytes()
 }
 
 // badToken alters a genuine token (any alteration must give session_lost).
@@ -450,7 +471,13 @@ func (w *world) httpRequest(th *thr) *http.Request {
 	} else {
 		id := atomic.AddInt64(&w.nextReq, 1)
 		w.reqs.Store(id, th)
-		req = httptest.NewRequest(http.MethodPost, "/call", bytes.NewReader(requestBody(id)))
+		var body []byte
+		if th.route == "pcont" || th.route == "xturn" {
+			body = turnBody(th.route, th.cursor, th.callTok)
+		} else {
+			body = requestBodyFor(routeMethod(th.route), id)
+		}
+		req = httptest.NewRequest(http.MethodPost, routePath(th.route), bytes.NewReader(body))
 		req.Header.Set("Content-Type", "application/vnd.apache.arrow.stream")
 		if th.accept {
 			req.Header.Set("VGI-Session-Accept", "true")
@@ -486,8 +513,32 @@ func (w *world) launch(th *thr, body func()) {
 	}
 }
 
+// prepStream opens a stream (sessionless /init, outside the schedule) whose next turn th will send.
+func (w *world) prepStream(th *thr) error {
+	wk := w.workers[th.worker]
+	prep := &thr{w: w, kind: "prep", free: true, route: "unary"}
+	id := atomic.AddInt64(&w.nextReq, 1)
+	w.reqs.Store(id, prep)
+	m := routeMethod(th.route)
+	req := httptest.NewRequest(http.MethodPost, "/"+m+"/init", bytes.NewReader(requestBodyFor(m, id)))
+	req.Header.Set("Content-Type", "application/vnd.apache.arrow.stream")
+	req.Header.Set("X-Who", th.prin)
+	rec := httptest.NewRecorder()
+	wk.h.ServeHTTP(rec, req)
+	th.cursor, th.callTok = vgirpc.FindStreamTokens(rec.Body.Bytes())
+	if th.cursor == nil {
+		return fmt.Errorf("preparatory %s/init returned no stream token (http %d)", m, rec.Code)
+	}
+	return nil
+}
+
 func (w *world) launchRequest(th *thr) {
 	wk := w.workers[th.worker]
+	if th.route == "pcont" || th.route == "xturn" {
+		if err := w.prepStream(th); err != nil {
+			w.prepErr = err
+		}
+	}
 	req := w.httpRequest(th)
 	th.resp = httptest.NewRecorder()
 	w.launch(th, func() { wk.h.ServeHTTP(th.resp, req) })
@@ -729,6 +780,8 @@ func (s *stepper) Begin(b replay.Behaviour, rng *rand.Rand) error {
 	if hooksPresent {
 		vgirpc.SetVerifHook(w.hook)
 	}
+	f := w.onTick
+	tickFn.Store(&f)
 	return nil
 }
 
@@ -805,6 +858,7 @@ func (s *stepper) End() {
 		}
 	}
 	vgirpc.SetVerifHook(nil)
+	tickFn.Store(nil)
 	curWorld.Store(nil)
 }
 
@@ -816,6 +870,20 @@ func tailOf(b replay.Behaviour) []string {
 		out = append(out, fmt.Sprintf("%s/%v", b[i].A, b[i].T))
 	}
 	return out
+}
+
+// setScript reads route and script of a session-bearing request; the "tick" at the end of the
+// script is not the init handler's: it is the Produce / Exchange call the framework makes.
+func (th *thr) setScript(args map[string]any) {
+	if r := replay.Str(args, "route"); r != "" {
+		th.route = r
+	}
+	th.script = nil
+	for _, o := range strs(replay.List(args, "script")) {
+		if o != "tick" {
+			th.script = append(th.script, o)
+		}
+	}
 }
 
 func strs(l []any) []string {
@@ -922,6 +990,7 @@ func (s *stepper) Step(i int, st replay.Step) (replay.Obs, error) {
 
 	case "StartPlain":
 		th = w.newThr(tid, "plain")
+		th.route = "unary"
 		th.prin, th.worker = replay.Str(st.Args, "prin"), replay.Str(st.Args, "w")
 		th.script = strs(replay.List(st.Args, "script"))
 		th.ttl = replay.Int(st.Args, "ttl")
@@ -946,12 +1015,16 @@ func (s *stepper) Step(i int, st replay.Step) (replay.Obs, error) {
 		th = w.newThr(tid, kind)
 		th.prin, th.worker, th.tok = replay.Str(st.Args, "prin"), replay.Str(st.Args, "w"), replay.Str(st.Args, "tok")
 		th.slot = replay.Int(st.Args, "s")
+		th.route = "unary"
 		if kind == "resume" {
-			th.script = strs(replay.List(st.Args, "script"))
+			th.setScript(st.Args)
 			th.accept = true
 			th.ttl = 1
 		}
 		w.launchRequest(th)
+		if w.prepErr != nil {
+			return nil, w.prepErr
+		}
 		if _, err := expectFinished(th, a); err != nil {
 			return nil, err
 		}
@@ -971,8 +1044,9 @@ func (s *stepper) Step(i int, st replay.Step) (replay.Obs, error) {
 		th = w.newThr(tid, kind)
 		th.prin, th.worker, th.tok = replay.Str(st.Args, "prin"), replay.Str(st.Args, "w"), replay.Str(st.Args, "tok")
 		th.slot = replay.Int(st.Args, "s")
+		th.route = "unary"
 		if kind == "resume" {
-			th.script = strs(replay.List(st.Args, "script"))
+			th.setScript(st.Args)
 			th.accept = true
 			th.ttl = 1
 		}
@@ -987,6 +1061,9 @@ func (s *stepper) Step(i int, st replay.Step) (replay.Obs, error) {
 			return nil, fmt.Errorf("%s: no request for thread %d", a, tid)
 		}
 		w.launchRequest(th)
+		if w.prepErr != nil {
+			return nil, w.prepErr
+		}
 		if w.gated.Load() {
 			at, err := expectAt(th)
 			if err != nil {
@@ -1044,7 +1121,7 @@ func (s *stepper) Step(i int, st replay.Step) (replay.Obs, error) {
 			}
 		} else {
 			obs["blocked"] = false
-			if th.kind == "resume" {
+			if th.kind == "resume" && (th.route == "unary" || th.route == "pinit") {
 				obs["saw"] = th.saw
 			} else {
 				obs["saw"] = 0
@@ -1148,6 +1225,27 @@ func (s *stepper) Step(i int, st replay.Step) (replay.Obs, error) {
 			obs["__skip__"] = true
 		}
 		th.closeCur++
+
+	case "H_Tick":
+		if w.gated.Load() {
+			at, err := expectAt(th)
+			if err != nil {
+				return nil, err
+			}
+			if at != "p" || len(th.tickSaws) == 0 {
+				obs["saw"] = "parked at " + at + " instead of inside Produce/Exchange"
+			} else {
+				obs["saw"] = th.tickSaws[len(th.tickSaws)-1]
+			}
+		} else {
+			if th.tickCur < len(th.tickSaws) {
+				obs["saw"] = th.tickSaws[th.tickCur]
+			} else {
+				obs["saw"] = "Produce/Exchange did not run"
+			}
+			obs["__skip__"] = true
+		}
+		th.tickCur++
 
 	case "Finish", "Del_Finish":
 		if _, err := expectFinished(th, a); err != nil {
